@@ -18,52 +18,23 @@ open Irismod.Spec.C09 (Fail chk sameState balsSameExcept supsSameExcept tokensSa
 `ratio` is the raw 18-decimal integer `ρ·10^18`; amounts are in min units; the value of `b`
 input min units is `b · ρ · 10^(so-si)` output min units.  All relations are multiplied out. -/
 
-/-- the full statement: `minted ≤ burned · ratio · 10^(so-si)` -/
+/-- the value statement: `minted ≤ burned · ratio · 10^(so-si)` -/
 def fullValue (b m ratio : Int) (si so : Nat) : Prop :=
   m * (pow10 si : Nat) * precision ≤ b * ratio * (pow10 so : Nat)
-
-/-- `minted ≤ v · ratio · 10^(so-si) + ½·10^-18 · 10^(slack - si)`, twice and multiplied out -/
-def within (v m ratio : Int) (si so slack : Nat) : Prop :=
-  2 * m * (pow10 si : Nat) * precision ≤ 2 * v * ratio * (pow10 so : Nat) + (pow10 slack : Nat)
-
-/-- minted is worth at most what was *offered*, up to half a unit of the 18th decimal -/
-def offeredValue (x m ratio : Int) (si so : Nat) : Prop := within x m ratio si so si
-
-/-- minted is worth at most what was *burned*, up to half a unit of the last decimal kept
-(class of F-tok-2: one rounding step carried the product across an integer) -/
-def halfUlpValue (b m ratio : Int) (si so : Nat) : Prop := within b m ratio si so (max si so)
-
-/-- minted is worth at most burned **plus one input min unit**, up to half a unit of the last
-decimal (class of F-tok-4: the burn is truncated, so up to one min unit escapes) -/
-def nearValue (b m ratio : Int) (si so : Nat) : Prop := within (b + 1) m ratio si so (max si so)
 
 /-- exactness at ratio 1 -/
 def exactAtOne (b m : Int) (si so : Nat) : Prop := b * (pow10 so : Nat) = m * (pow10 si : Nat)
 
 instance (b m ratio : Int) (si so : Nat) : Decidable (fullValue b m ratio si so) := by unfold fullValue; infer_instance
-instance (v m ratio : Int) (si so k : Nat) : Decidable (within v m ratio si so k) := by unfold within; infer_instance
-instance (x m ratio : Int) (si so : Nat) : Decidable (offeredValue x m ratio si so) := by unfold offeredValue; infer_instance
-instance (b m ratio : Int) (si so : Nat) : Decidable (halfUlpValue b m ratio si so) := by unfold halfUlpValue; infer_instance
-instance (b m ratio : Int) (si so : Nat) : Decidable (nearValue b m ratio si so) := by unfold nearValue; infer_instance
 instance (b m : Int) (si so : Nat) : Decidable (exactAtOne b m si so) := by unfold exactAtOne; infer_instance
-
-/-- the finding a violation of the full statement belongs to ("" = none: a new violation) -/
-def valueClass (b m ratio : Int) (si so : Nat) : String :=
-  if halfUlpValue b m ratio si so then "F-tok-2"
-  else if precision < ratio then "F-tok-3"
-  else if nearValue b m ratio si so then "F-tok-4"
-  else ""
 
 /-- the clauses of C10 about one swap outcome `(offered x, ratio, si, so) ↦ (b, m)` -/
 def swapFails (x : Int) (ratio : Int) (si so : Nat) (b m : Int) : List Fail :=
-  chk (decide (b ≤ x)) "burned-le-offered" ++
+  chk (decide (b ≤ x) || decide (x < 0 ∧ b = 0)) "burned-le-offered" ++
+  chk (decide (0 ≤ b)) "burned-nonneg" ++
   chk (decide (0 ≤ m)) "minted-nonneg" ++
-  chk (decide (offeredValue x m ratio si so)) "minted-le-offered-value" ++
-  (if ratio = precision then
-     chk (decide (exactAtOne b m si so)) "exact-at-ratio-one" ++
-     chk (decide (0 ≤ b)) "dust-nonneg"
-   else
-     chk (decide (fullValue b m ratio si so)) "minted-le-burned-value" (valueClass b m ratio si so))
+  chk (decide (fullValue b m ratio si so)) "minted-le-burned-value" ++
+  (if ratio = precision then chk (decide (exactAtOne b m si so)) "exact-at-ratio-one" else [])
 
 /-! ### ERC20 ledger -/
 
